@@ -50,6 +50,8 @@ def gen_valid_consts():
     out.append("def valDiffNoDeleteAnchor : Bool := %s" % ("true" if re.search(r"\(op == LYD_DIFF_OP_CREATE\) && lysc_is_userordered", body(val, "lyd_val_diff_add")) else "false"))
     out.append("-- validation.c: lyd_validate_autodel_case_dflt records the removal of a leftover default non-presence container through its children only (F179 b)")
     out.append("def caseDfltNpViaKids : Bool := %s" % ("false" if re.search(r"lyd_validate_autodel_node_del\(first,\s*\*node,\s*mod,\s*1,", body(val, "lyd_validate_autodel_case_dflt")) else "true"))
+    out.append("-- validation.c: lyd_validate_cases takes default-flagged nodes (a client-given empty non-presence container) for data of a case (F321)")
+    out.append("def casesCountDefault : Bool := %s" % ("false" if re.search(r"match->flags\s*&\s*LYD_DEFAULT\)\s*\{[^}]*?continue;", body(val, "lyd_validate_cases"), re.S) else "true"))
     out.append("-- tree_data_common.c: lyd_is_default compares a leaf-list instance with each single default (F17)")
     out.append("def isDefaultAnyOne : Bool := %s" % ("true" if re.search(r"compare with each possible default value", body(com, "lyd_is_default")) else "false"))
     out.append("\nend LyModel.Generated\n")
